@@ -185,6 +185,36 @@ func (m *c09Mux) GetDiskUsage(p string) (vfs.DiskUsage, error) {
 	return fs.GetDiskUsage(r)
 }
 
+// c09Guard sits between the event hook and a crashable MemFS. MemFS.Lock and
+// MemFS.ReuseForWrite take the clone read-lock and then call another MemFS
+// method that takes it again; a CrashClone (writer) arriving from a different
+// goroutine between the two acquisitions deadlocks the filesystem. The guard
+// makes clones wait for, and exclude, exactly those two calls (harness-side
+// workaround; it changes nothing the store can observe).
+type c09Guard struct {
+	vfs.FS
+	mu *sync.RWMutex
+}
+
+func (g c09Guard) Lock(name string) (io.Closer, error) {
+	g.mu.RLock()
+	defer g.mu.RUnlock()
+	return g.FS.Lock(name)
+}
+
+func (g c09Guard) ReuseForWrite(oldname, newname string, c vfs.DiskWriteCategory) (vfs.File, error) {
+	g.mu.RLock()
+	defer g.mu.RUnlock()
+	return g.FS.ReuseForWrite(oldname, newname, c)
+}
+
+// c09Clone takes a crash clone while no guarded call is in flight.
+func c09Clone(mem *vfs.MemFS, mu *sync.RWMutex, cfg vfs.CrashCloneCfg) *vfs.MemFS {
+	mu.Lock()
+	defer mu.Unlock()
+	return mem.CrashClone(cfg)
+}
+
 // c09FSSig is a cheap content signature of a MemFS subtree (file names and
 // sizes) used to tell whether a lossy clone actually dropped unsynced data.
 func c09FSSig(fs vfs.FS, dir string) (files int, bytes int64) {
